@@ -198,11 +198,11 @@ func (n *Network) SetStreamHandler(network.StreamHandler) {
 func (n *Network) NewStream(ctx context.Context, p peer.ID) (network.Stream, error) {
 	return n.h.NewStream(ctx, p)
 }
-func (n *Network) Listen(...ma.Multiaddr) error         { return nil }
-func (n *Network) ListenAddresses() []ma.Multiaddr      { return n.h.Addrs() }
+func (n *Network) Listen(...ma.Multiaddr) error                      { return nil }
+func (n *Network) ListenAddresses() []ma.Multiaddr                   { return n.h.Addrs() }
 func (n *Network) InterfaceListenAddresses() ([]ma.Multiaddr, error) { return n.h.Addrs(), nil }
-func (n *Network) ResourceManager() network.ResourceManager { return &network.NullResourceManager{} }
-func (n *Network) CanDial(peer.ID, ma.Multiaddr) bool   { return true }
+func (n *Network) ResourceManager() network.ResourceManager          { return &network.NullResourceManager{} }
+func (n *Network) CanDial(peer.ID, ma.Multiaddr) bool                { return true }
 
 func (n *Network) Notify(f network.Notifiee) {
 	n.mu.Lock()
@@ -248,6 +248,15 @@ func (n *Network) Peers() []peer.ID {
 	}
 	sort.Slice(out, func(i, j int) bool { return out[i] < out[j] })
 	return out
+}
+
+// Unlist removes the connection to p from the network's connection list without closing it or its streams: the
+// window of a connection that is being torn down (a swarm removes the connection from its list first and resets
+// its streams last), during which Conns() no longer reports streams that are still being served.
+func (n *Network) Unlist(p peer.ID) {
+	n.mu.Lock()
+	delete(n.conns, p)
+	n.mu.Unlock()
 }
 
 func (n *Network) Conns() []network.Conn {
